@@ -24,16 +24,22 @@ let check_wops (fields : sexp list) : verdict * string option =
   let (w', rs) = wrun w0 ops in
   let mres = List.map (function WOk -> "ok" | WErr -> "err" | WPanic -> "panic") rs in
   let mpanic = List.mem "panic" mres in
-  (* oracle: every write that reached the transport is one complete, correctly framed message *)
-  let framed (w : byte list) = match w with
+  (* oracle: what reached the transport is, in total, a concatenation of complete, correctly framed messages
+     (the transport of this class accepts everything or fails every write, so how the Writer cuts a message
+     into Write calls cannot leave a partial message in front of the next one) *)
+  let rec drop n l = if n = 0 then Some l else match l with [] -> None | _ :: t -> drop (n - 1) t in
+  let rec framed (w : byte list) = match w with
+    | [] -> true
     | _ :: a :: b :: c :: d :: body ->
-        (int_of_byte a lsl 24) lor (int_of_byte b lsl 16) lor (int_of_byte c lsl 8) lor int_of_byte d = 4 + List.length body
+        let n = (int_of_byte a lsl 24) lor (int_of_byte b lsl 16) lor (int_of_byte c lsl 8) lor int_of_byte d in
+        n >= 4 && (match drop (n - 4) body with Some rest -> framed rest | None -> false)
     | _ -> false in
-  if not mpanic && (panicked || not (List.for_all framed writes)) then
-    (OracleFail "a write that reached the transport is not one complete length-framed message (or the Writer panicked)", None)
-  else if mpanic <> panicked || (not mpanic && (w'.w_sink <> writes || mres <> results)) then
-    (Diff (Printf.sprintf "writer model and implementation differ: model %d writes %s, impl %d writes %s"
-             (List.length w'.w_sink) (String.concat "," mres) (List.length writes) (String.concat "," results)), None)
+  let sent = List.concat writes in
+  if not mpanic && (panicked || not (framed sent)) then
+    (OracleFail "the bytes that reached the transport are not a concatenation of complete length-framed messages (or the Writer panicked)", None)
+  else if mpanic <> panicked || (not mpanic && (List.concat w'.w_sink <> sent || mres <> results)) then
+    (Diff (Printf.sprintf "writer model and implementation differ: model %d bytes %s, impl %d bytes %s"
+             (List.length (List.concat w'.w_sink)) (String.concat "," mres) (List.length sent) (String.concat "," results)), None)
   else (Ok_, None)
 
 let nontrivial_wops (fields : sexp list) : string option =
